@@ -1,9 +1,9 @@
 """C03 - state-passing model interface is pure and equivalent to direct assignment."""
 from pyvc.api import *
-from contracts.graph import G, M, N, SHAPES, install_graph_models
+from contracts.graph import G, M, N, SHAPES, SHAPES_IFACE, install_graph_models
 
 IFACE = "liesel/goose/interface.py"
-STRONG = {"hier": ["tau", "mu", "y"], "diamond": ["a", "y"], "flat": ["b", "c", "y"]}
+STRONG = {"hier": ["tau", "mu", "y"], "diamond": ["a", "y"], "flat": ["b", "c", "y"], "direct": ["b", "c", "y"]}
 
 
 def simple_iface_unit(cls):
@@ -16,12 +16,15 @@ def simple_iface_unit(cls):
         lp = PyFn(lambda ip_, st: ip_.uf("user_log_prob", ip_.to_U(st)), "log_prob_fn")
         iface = ip.call(ip.repo(f"{IFACE}::{cls}"), [lp], {})
         vals = {k: z3.Const(f"s_{k}", U) for k in ("a", "b", "c")}
+        if cls == "DataclassInterface":
+            vals["d"] = z3.Const("s_d", U)  # a field declared with field(init=False) that currently holds another value than its default
         if cls == "DictInterface":
             state = dict(vals)
             read = lambda st, k: st[k]  # noqa: E731
         else:
             st_cls = Obj("StateClass")  # user-defined record type (dataclass / named tuple instance)
             state = Obj("StateRecord", dict(vals))
+            state.dc = {"init": ["a", "b", "c"], "noinit": {"d": z3.Const("constructor_time_d", U)}}
             read = lambda st, k: st.f[k]  # noqa: E731
             if cls == "NamedTupleInterface":
                 state = PyObj("nt_state", **vals)
@@ -34,7 +37,7 @@ def simple_iface_unit(cls):
         c.oblige("returns_new_object", new is not state)
         got = ip.call(method(ip, iface, "extract_position"), [["a", "c"], new], {})
         c.oblige("put_get", isinstance(got, dict) and list(got) == ["a", "c"] and got["a"].eq(pos["a"]) and got["c"].eq(pos["c"]))
-        c.oblige("other_fields_kept", read(new, "b").eq(vals["b"]))
+        c.oblige("other_fields_kept", all(read(new, k).eq(vals[k]) for k in vals if k not in pos))
         got0 = ip.call(method(ip, iface, "extract_position"), [["b", "a"], state], {})
         c.oblige("extract_reads_state", list(got0) == ["b", "a"] and got0["b"].eq(vals["b"]) and got0["a"].eq(vals["a"]))
         r = ip.call(method(ip, iface, "log_prob"), [state], {})
@@ -49,8 +52,8 @@ for _c in ("DictInterface", "DataclassInterface", "NamedTupleInterface"):
     simple_iface_unit(_c)
 
 
-def liesel_unit(shape, rel=IFACE, cls="LieselInterface", auto_update=True):
-    @unit(f"C03.{cls}.{shape}" + ("" if auto_update else ".auto_update_off"), "C03", [f"{rel}::{cls}.__init__", f"{rel}::{cls}.update_state", f"{rel}::{cls}.extract_position", f"{rel}::{cls}.log_prob",
+def liesel_unit(shape, rel=IFACE, cls="LieselInterface", auto_update=True, uid=None, prop="C03"):
+    @unit(uid or (f"C03.{cls}.{shape}" + ("" if auto_update else ".auto_update_off")), prop, [f"{rel}::{cls}.__init__", f"{rel}::{cls}.update_state", f"{rel}::{cls}.extract_position", f"{rel}::{cls}.log_prob",
                                         f"{M}::Model._copy_computational_model", f"{M}::Model.state.fget", f"{M}::Model.state.fset", f"{M}::Model.update", f"{N}::Node.state.fset",
                                         f"{N}::Node.clear_state", f"{N}::Value.value.fset"],
           assumptions=[f"graph shape '{shape}', values / functions / distributions arbitrary", "A-PY: deepcopy duplicates the object graph preserving sharing",
@@ -63,7 +66,7 @@ def liesel_unit(shape, rel=IFACE, cls="LieselInterface", auto_update=True):
         c = ip.ctx
         install_graph_models(ip)
         g = G(ip)
-        model = g.build(*SHAPES[shape](g))
+        model = g.build(*SHAPES_IFACE[shape](g))
         if not auto_update:
             ip.setattr(model, "auto_update", False)
 
@@ -87,7 +90,7 @@ def liesel_unit(shape, rel=IFACE, cls="LieselInterface", auto_update=True):
         r_hist = ip.call(method(ip, iface, "update_state"), [dict(p1), s], {})  # an earlier, unrelated call
         r2 = ip.call(method(ip, iface, "update_state"), [dict(p2), s], {})
         # reference: direct assignment on a fresh copy of the user's model + full update
-        ref = g.build(*SHAPES[shape](G(ip)))
+        ref = g.build(*SHAPES_IFACE[shape](G(ip)))
         ip.setattr(ref.f["_vars"][names[0]], "value", p2[names[0]])
         ip.setattr(ref.f["_nodes"][f"{names[1]}_value"], "value", p2[f"{names[1]}_value"])
         ip.call(method(ip, ref, "update"), [], {})
@@ -111,6 +114,8 @@ def liesel_unit(shape, rel=IFACE, cls="LieselInterface", auto_update=True):
 
 for _s in SHAPES:
     liesel_unit(_s)
+liesel_unit("direct")  # position keyed by VARIABLE name for a variable whose value node has a direct consumer
+liesel_unit("direct", auto_update=False)
 liesel_unit("diamond", "liesel/model/goose.py", "GooseModel")
 liesel_unit("diamond", auto_update=False)
 liesel_unit("hier", auto_update=False)
